@@ -320,7 +320,8 @@ def modules_part(ck, binp, tier, seed, dist, scale):
         if not r:
             continue
         # totality: no panic
-        for stage, m in [("decode", r["dec"])] + [("compile-" + e, m) for e, m in r["comp"].items()]:
+        for stage, m in [("decode", r["dec"])] + [("compile-" + e, m) for e, m in r["comp"].items()] + \
+                        [("compile-through-a-runtime-whose-cache-was-closed-" + e, m) for e, m in (r.get("comp_closed") or {}).items()]:
             if m.get("panic"):
                 what = re.sub(r"\d+", "N", re.sub(r"\[-\d+\]", "[negative]", m["panic"]))
                 report("compile-panic", {"kind": "compile-panic", "func": m.get("panicfn", ""), "what": what},
